@@ -545,6 +545,9 @@ func (a *Analyzer) Feed(r *ev.Rec) {
 		a.find("C10", "restart-fails", "restart-fails:"+firstWords(r.Err, 6), r.Q, "node %d/%d cannot be restarted on %s: %s", r.Cid, r.Nid, r.Dir, r.Err)
 	case "task-stuck":
 		a.find("C15", "task-never-completed", "task-never-completed:"+r.Op, r.Q, "task %s (op %d) on %s not done after shutdown of all nodes", r.Op, r.OpID, n.key)
+		if r.Op == "transfer" {
+			a.find("C16", "transfer-neither-completes-nor-fails", "", r.Q, "the leadership transfer (op %d) submitted to %s is not done even after the shutdown of all nodes", r.OpID, n.key)
+		}
 	case "serve-stuck", "info-stuck", "clients-stuck":
 		a.find("C15", r.K, "", r.Q, "%s on node %d/%d", r.K, r.Cid, r.Nid)
 	case "shutdown-ret":
@@ -608,6 +611,8 @@ func (a *Analyzer) Feed(r *ev.Rec) {
 		if r.Kind == "no-election" {
 			a.find("C20", "foreign-peer-suppresses-elections", "", r.Q, "cluster %d: the leader %d is gone for 40 heartbeat timeouts, but the followers elect nobody while a node of another cluster with the leader's node id keeps dialling them (every attempt is refused at the identity handshake)", r.Cid, r.Nid)
 		}
+	case "transfer-unanswered":
+		a.find("C16", "transfer-neither-completes-nor-fails", "", r.Q, "the leadership transfer to %d submitted to %s (timeout %s) has not been answered a minute later, and the node is running", r.Tgt, n.key, r.Note)
 	case "wait-abandoned":
 		a.stat("waits-abandoned-by-the-harness")
 	case "after-failed-transfer":
